@@ -17,8 +17,12 @@ Slo(l) == IF l = "L3" THEN <<>> ELSE << <<Soap, "slo1", 0>>, <<Redirect, "slo2",
 AcsOther == << <<Post, "urlB", 1>> >>                \* the other SP (sp2)
 SloOther == << <<Redirect, "sloB", 0>> >>
 
-Issuers == {"sp1", "sp2", "unknown"}
-Urls == {"absent", "url1", "url2", "url3", "urlB", "url1-case", "url1-slash", "url1-query", "url1-port", "url1-prefix", "url1-parent", "unregistered"}
+\* "sp1-slash" / "sp1-case": sp1's entity id with a trailing slash / in another letter case -- names nobody registered
+Issuers == {"sp1", "sp2", "unknown", "sp1-slash", "sp1-case"}
+Known(i) == i \in {"sp1", "sp2"}
+\* the entity ids of the providers are URNs, or URLs (what most federations use)
+IdStyles == {"urn", "url"}
+Urls == {"absent", "url1", "url2", "url3", "urlB", "url1-case", "url1-slash", "url1-query", "url1-port", "url1-prefix", "url1-parent", "url1-pct", "unregistered"}
 Indexes == {"absent", "1", "2", "9"}
 PBind == {"absent", Post, Redirect, Artifact, "PAOS", "bogus"}
 \* the server is long-lived: prev is the authentication request it answered just before (none, sp1 naming url1, sp2 naming
@@ -26,10 +30,13 @@ PBind == {"absent", Post, Redirect, Artifact, "PAOS", "bogus"}
 Prev == {"none", "sp1_url1", "sp2_urlB"}
 \* signed: the authentication request carries a valid enveloped signature of the requester (delivered over HTTP-POST).  A
 \* signature authenticates the requester; it does not register endpoints.
-Scn == [typ : {"authn"}, layout : Layouts, issuer : Issuers, url : Urls, index : Indexes, pbinding : PBind, prev : Prev, signed : BOOLEAN]
+Scn == [typ : {"authn"}, layout : Layouts, issuer : Issuers, url : Urls, index : Indexes, pbinding : PBind, prev : Prev, signed : BOOLEAN,
+        idStyle : IdStyles]
        \cup [typ : {"logout"}, layout : Layouts, issuer : Issuers, url : {"absent"}, index : {"absent"}, pbinding : {"absent"}, prev : Prev,
-             signed : {FALSE}]
-WellFormed(s) == s.signed => s.issuer # "unknown" /\ s.prev = "none" /\ s.index = "absent"
+             signed : {FALSE}, idStyle : IdStyles]
+WellFormed(s) == /\ s.signed => Known(s.issuer) /\ s.prev = "none" /\ s.index = "absent"
+                 /\ s.idStyle = "url" => s.prev = "none" /\ ~s.signed /\ s.layout \in {"L1", "L2"} /\ s.index = "absent"
+                 /\ s.issuer \in {"sp1-slash", "sp1-case"} => s.prev = "none" /\ ~s.signed /\ s.index = "absent"
 
 VARIABLES scn, pc, result
 vars == <<scn, pc, result>>
@@ -55,13 +62,13 @@ Pick(bs) ==
               ELSE <<Head(bs), srvs[1][2]>>          \* the index of an AuthnRequest is never looked at
 
 Answer == /\ pc = "pick" /\ pc' = "done" /\ UNCHANGED scn
-          /\ result' = IF scn.issuer = "unknown" THEN Err ELSE Pick(Tried)
+          /\ result' = IF ~Known(scn.issuer) THEN Err ELSE Pick(Tried)
 
 \* ---- contract
-MustRefuse == \/ scn.issuer = "unknown"
+MustRefuse == \/ ~Known(scn.issuer)
               \/ (scn.url # "absent" /\ \A e \in Registered(scn) : e[2] # scn.url)
 ResultOK(r) == r = Err \/ (r \in Registered(scn) /\ (scn.url # "absent" => r[2] = scn.url))
-MustAnswer == /\ scn.issuer # "unknown" /\ scn.pbinding = "absent"
+MustAnswer == /\ Known(scn.issuer) /\ scn.pbinding = "absent"
               /\ \/ (scn.url = "absent" /\ Endpoints(scn) # <<>>)
                  \/ (scn.url # "absent" /\ \E e \in Registered(scn) : e[2] = scn.url)
 Emit == /\ pc = "done" /\ pc' = "emitted" /\ UNCHANGED <<scn, result>>
